@@ -111,7 +111,7 @@ func runHashMapSeq(r request) (res result) {
 // are not powers of two, load factors on both sides of 1, hash codes with few distinct values.
 func genHashMapSeq(c *core.Ctx, cfg *config) []request {
 	g := c.G
-	nh := c.Scale(14, 120)
+	nh := c.Scale(14, 80)
 	if cfg.ncoll > 0 && cfg.ncoll <= 5 {
 		nh = 3 // the small race pass of the quick tier
 	}
